@@ -9,7 +9,12 @@ import builtins as pybuiltins
 import fractions
 import math
 
+import os
+import sys
+
 import z3
+
+TRACE = bool(os.environ.get("PYVC_TRACE"))
 
 from . import extract
 from .engine import PathEnd
@@ -388,6 +393,8 @@ class Interp:
 
     def exec_stmt(self, s, env):
         self.lineno = getattr(s, "lineno", self.lineno)
+        if TRACE:
+            print("  " * len(self.frames), "L%s %s" % (self.lineno, type(s).__name__), file=sys.stderr)
         m = getattr(self, "st_" + type(s).__name__, None)
         if m is None:
             raise PyvcError(f"statement {type(s).__name__} outside the accepted subset (line {s.lineno})")
@@ -632,16 +639,31 @@ class Interp:
         if spec is not None:
             return self._cut_loop(s, env, spec, None)
         n = 0
+        total = 0
         bound = self._unroll_bound(fr)
         while True:
             c = self.eval(s.test, env)
             t = self.truth(c)
+            total += 1
             if not isinstance(t, bool):
                 n += 1
-                if n > bound:
+                if bound == 0:
                     raise PyvcError(
                         f"while loop at line {s.lineno} has a symbolic guard and no loop contract (invariant needed)"
                     )
+            if (bound and total > bound) or total > 5000:
+                if not bound:
+                    raise PyvcError(f"while loop at line {s.lineno} did not finish within 5000 concrete iterations")
+                # every path must leave the loop within `bound` iterations (complete when it passes: all
+                # paths are explored symbolically); reaching this point is a termination failure
+                self.eng.check(
+                    f"{fr.contract.short}#terminates[loop@{self._relline(s)}].within_{bound}_iterations",
+                    False,
+                    line=s.lineno,
+                    kind="termination",
+                    detail=f"a path stays in the loop for more than {bound} iterations",
+                )
+                raise PathEnd()
             if not self.decide(c):
                 self.exec_block(s.orelse, env)
                 return
@@ -1140,7 +1162,7 @@ class Interp:
             model = self.registry.models.get(q)
             if model is not None:
                 return model(self, *args, **kwargs)
-            inline = caller is not None and caller.inlines(q)
+            inline = (caller is not None and caller.inlines(q)) or q in self.registry.always_inline
             contract = self.registry.contracts.get(q)
             if contract is not None and not contract.usable_at_calls():
                 contract = None
